@@ -172,7 +172,7 @@ func WaitsOf(fn *ssa.Function) []Wait {
 		}
 		out = append(out, *w)
 	}
-	InstrsOwn(fn, func(in ssa.Instruction) {
+	Instrs(fn, func(in ssa.Instruction) {
 		switch x := in.(type) {
 		case *ssa.Select:
 			w := &Wait{Instr: in, Fn: fn, Kind: "select", Blocking: x.Blocking}
